@@ -9,7 +9,36 @@ ALL = ["C%02d" % i for i in range(1, 21)]
 BASELINE = ("OMPI_ALLOW_RUN_AS_ROOT=1 OMPI_ALLOW_RUN_AS_ROOT_CONFIRM=1 sh -c 'cmake --build /repo/_build -j16 >/dev/null && "
             "ctest --test-dir /repo/_build -j8 --timeout 900'")
 
+IRNOTE = ("Trusted: clang 14 IR generation and -O2 pipeline (used only as a normaliser), the specification table vlib/viewspec.py (documented "
+          "index maps), ~700 lines of polynomial / IR-reader code, two's-complement overflow ignored. Views are built from raw descriptors "
+          "through the public layout_t / subarray constructors, element type double, raw pointers; D<=3 quick, D<=4 thorough "
+          "(D<=3 for operations that add a dimension).")
+
 CHECKS = {
+    "C01": dict(
+        engine="irval", category="proof",
+        text=("Per-operation proof obligations on a *fully symbolic* view descriptor (strides, sizes, indices free; offset=first*stride, "
+              "nelems=size*stride): for each of 30 view-forming operations / call-syntax forms and each D, the address of the result at a "
+              "symbolic index, extension().first, sizes, strides, size(), num_elements(), is_empty() and the raw result descriptor computed by "
+              "the optimised library code equal, as polynomials, the closed forms prescribed by the documented index map; the result again "
+              "satisfies the layout invariant, so the identities extend to every finite composition by induction. Also: layout from "
+              "extensions is row-major (all 2^D zero/non-zero size cases), nine access paths to one index tuple agree, empty results "
+              "report size 0. One polynomial identity covers all extents and strides at once, which no finite test set does."),
+        design_ref="DESIGN.md 3/C01, 2.2",
+        note=IRNOTE + " Known finding: leading sizes collapse to 0 when an inner size is 0 (known_findings.json). Not decided: stored values, "
+             "out-of-domain arguments, and R01.noeffect (no allocation) which is part of the C05/C08 fact base.",
+        technique="abstract interpretation of -O2 LLVM IR in a polynomial domain; normal-form equality against a specification table",
+    ),
+    "C19": dict(
+        engine="irval", category="proof",
+        text=("All C01 obligations re-evaluated with a free symbolic first index per dimension (offset_k = f_k*stride_k), plus reindexed, "
+              "blocked and stenciled: the element designated by every operation on a re-based view is the one the shifted zero-based view "
+              "designates, for all index bases at once (polynomial identities in f_k)."),
+        design_ref="DESIGN.md 3/C19",
+        note=IRNOTE + " diagonal() is not claimed for re-based views (its implementation ranges over {0,min} absolute indices: out of domain). "
+             "elements() of re-based views is decided under C02/C19 flat obligations.",
+        technique="abstract interpretation of -O2 LLVM IR in a polynomial domain with symbolic index bases",
+    ),
     "C16": dict(
         engine="witness",
         category="proof",
